@@ -24,3 +24,33 @@ func allocEscapesAsValue(x *ssa.Alloc) bool {
 	}
 	return false
 }
+
+// callsRecover reports whether fn or one of its closures calls the recover builtin. go/ssa gives
+// every function with a defer and named results a "recover" block; without a call of recover() that
+// block is dead code (a panic simply propagates), so such functions are within the subset.
+func callsRecover(fn *ssa.Function) bool {
+	for _, b := range fn.Blocks {
+		for _, in := range b.Instrs {
+			var cc *ssa.CallCommon
+			switch x := in.(type) {
+			case *ssa.Call:
+				cc = &x.Call
+			case *ssa.Defer:
+				cc = &x.Call
+			case *ssa.Go:
+				cc = &x.Call
+			}
+			if cc != nil {
+				if bi, ok := cc.Value.(*ssa.Builtin); ok && bi.Name() == "recover" {
+					return true
+				}
+			}
+		}
+	}
+	for _, a := range fn.AnonFuncs {
+		if callsRecover(a) {
+			return true
+		}
+	}
+	return false
+}
